@@ -162,6 +162,14 @@ class _Canon(ast.NodeTransformer):
 
     def visit_Assign(self, node: ast.Assign):
         self.generic_visit(node)
+        # T[(k := E)] = V:  k = E; T[k] = V   (view only: the key is evaluated before instead of after V)
+        for t in node.targets:
+            if isinstance(t, ast.Subscript) and isinstance(t.slice, ast.NamedExpr) and isinstance(t.slice.target, ast.Name):
+                ne = t.slice
+                pre0 = ast.copy_location(ast.Assign(targets=[ast.Name(ne.target.id, ast.Store())], value=ne.value, lineno=node.lineno), node)
+                t.slice = ast.copy_location(ast.Name(ne.target.id, ast.Load()), ne)
+                rest0 = self.visit_Assign(node)
+                return [ast.fix_missing_locations(pre0)] + (rest0 if isinstance(rest0, list) else [rest0])
         pre = self._hoist_walrus(node)
         if pre is not None:
             rest = self.visit_Assign(node)
@@ -2329,10 +2337,104 @@ def records_to_dicts(tree: ast.Module, known_classes: Set[str]) -> int:
     return done
 
 
+def _dicts_built_by_stores(tree: ast.AST) -> int:
+    """``d = dict()`` / ``d = {}`` followed directly by ``d["k"] = v`` statements with constant keys (v not reading d): the literal
+    ``d = {"k": v, ...}`` - in any statement list of any function."""
+    done = 0
+    for holder in ast.walk(tree):
+        for fld in ("body", "orelse", "finalbody"):
+            body = getattr(holder, fld, None)
+            if not (isinstance(body, list) and body and isinstance(body[0], ast.stmt)):
+                continue
+            # if C: d["k"] = a  else: d["k"] = b   is   d["k"] = a if C else b
+            for k_, st_ in enumerate(body):
+                if isinstance(st_, ast.If) and len(st_.body) == 1 and len(st_.orelse) == 1 and all(
+                        isinstance(x, ast.Assign) and len(x.targets) == 1 and isinstance(x.targets[0], ast.Subscript) and isinstance(x.targets[0].slice, ast.Constant)
+                        and isinstance(x.targets[0].value, ast.Name) for x in (st_.body[0], st_.orelse[0])) \
+                        and ast.dump(st_.body[0].targets[0]) == ast.dump(st_.orelse[0].targets[0]):
+                    body[k_] = ast.copy_location(ast.Assign(targets=[st_.body[0].targets[0]], value=ast.copy_location(
+                        ast.IfExp(test=st_.test, body=st_.body[0].value, orelse=st_.orelse[0].value), st_), lineno=st_.lineno), st_)
+                    done += 1
+            # d = {} ; for v in xs: d[K] = V     is     d = {K: V for v in xs}
+            k_ = 0
+            while k_ + 1 < len(body):
+                a_, l_ = body[k_], body[k_ + 1]
+                if isinstance(a_, ast.Assign) and len(a_.targets) == 1 and isinstance(a_.targets[0], ast.Name) and (
+                        (isinstance(a_.value, ast.Dict) and not a_.value.keys) or
+                        (isinstance(a_.value, ast.Call) and isinstance(a_.value.func, ast.Name) and a_.value.func.id == "dict" and not a_.value.args and not a_.value.keywords)) \
+                        and isinstance(l_, ast.For) and not l_.orelse and len(l_.body) == 1 and isinstance(l_.body[0], ast.Assign) and len(l_.body[0].targets) == 1 \
+                        and isinstance(l_.body[0].targets[0], ast.Subscript) and isinstance(l_.body[0].targets[0].value, ast.Name) \
+                        and l_.body[0].targets[0].value.id == a_.targets[0].id \
+                        and not any(isinstance(x, ast.Name) and x.id == a_.targets[0].id for x in ast.walk(l_.body[0].value)) \
+                        and not any(isinstance(x, ast.Name) and x.id == a_.targets[0].id for x in ast.walk(l_.iter)):
+                    tgt = copy.deepcopy(l_.target)
+                    comp = ast.DictComp(key=l_.body[0].targets[0].slice, value=l_.body[0].value,
+                                        generators=[ast.comprehension(target=tgt, iter=l_.iter, ifs=[], is_async=0)])
+                    a_.value = ast.copy_location(comp, a_.value)
+                    del body[k_ + 1]
+                    done += 1
+                k_ += 1
+            # f = <table>.get ... f(k)     is     <table>.get(k)        (a bound look-up kept in a local)
+            for k_, st_ in enumerate(list(body)):
+                if isinstance(st_, ast.Assign) and len(st_.targets) == 1 and isinstance(st_.targets[0], ast.Name) and isinstance(st_.value, ast.Attribute) \
+                        and st_.value.attr == "get" and isinstance(st_.value.value, (ast.Name, ast.DictComp, ast.Dict)):
+                    fname = st_.targets[0].id
+                    stores = sum(1 for x in ast.walk(holder) if isinstance(x, ast.Name) and x.id == fname and isinstance(x.ctx, ast.Store))
+                    if stores != 1:
+                        continue
+                    if isinstance(st_.value.value, ast.Name):
+                        base_name = st_.value.value.id
+                        body[k_] = ast.copy_location(ast.Pass(), st_)
+                    else:
+                        base_name = fname + "__table"
+                        body[k_] = ast.copy_location(ast.Assign(targets=[ast.Name(base_name, ast.Store())], value=st_.value.value, lineno=st_.lineno), st_)
+
+                    class B(ast.NodeTransformer):
+                        def visit_Call(self, node):
+                            self.generic_visit(node)
+                            if isinstance(node.func, ast.Name) and node.func.id == fname:
+                                node.func = ast.copy_location(ast.Attribute(value=ast.Name(base_name, ast.Load()), attr="get", ctx=ast.Load()), node.func)
+                            return node
+                    for w_ in body:
+                        B().visit(w_)
+                    done += 1
+            i = 0
+            while i < len(body):
+                st = body[i]
+                empty = isinstance(st, ast.Assign) and len(st.targets) == 1 and isinstance(st.targets[0], ast.Name) and (
+                    (isinstance(st.value, ast.Dict) and all(k is not None for k in st.value.keys)) or
+                    (isinstance(st.value, ast.Call) and isinstance(st.value.func, ast.Name) and st.value.func.id == "dict" and not st.value.args and not st.value.keywords))
+                if empty:
+                    name = st.targets[0].id
+                    keys = list(st.value.keys) if isinstance(st.value, ast.Dict) else []
+                    vals = list(st.value.values) if isinstance(st.value, ast.Dict) else []
+                    j = i + 1
+                    while j < len(body):
+                        u = body[j]
+                        if isinstance(u, ast.Assign) and len(u.targets) == 1 and isinstance(u.targets[0], ast.Subscript) and isinstance(u.targets[0].value, ast.Name) \
+                                and u.targets[0].value.id == name and isinstance(u.targets[0].slice, ast.Constant) \
+                                and not any(isinstance(x, ast.Name) and x.id == name for x in ast.walk(u.value)) \
+                                and ast.dump(u.targets[0].slice) not in {ast.dump(k) for k in keys}:
+                            keys.append(u.targets[0].slice)
+                            vals.append(u.value)
+                            j += 1
+                            continue
+                        break
+                    if j > i + 1:
+                        st.value = ast.copy_location(ast.Dict(keys=keys, values=vals), st.value)
+                        del body[i + 1:j]
+                        done += 1
+                i += 1
+    if done:
+        ast.fix_missing_locations(tree)
+    return done
+
+
 def inline_module(tree: ast.Module, vocab: Set[str], global_classes: Optional[Dict[str, ast.ClassDef]] = None, any_helpers: bool = True,
                   global_funcs: Optional[Dict[str, ast.FunctionDef]] = None) -> int:
     """Rewrite every function of the module in place; innermost functions first, two passes."""
     if not any_helpers and all(n.name in vocab for n in ast.walk(tree) if isinstance(n, (ast.FunctionDef, ast.AsyncFunctionDef))):
+        _dicts_built_by_stores(tree)
         return 0                    # every function of the package is an anchor the rules know by name: nothing to look through
     inl = Inliner(tree, vocab, global_classes, global_funcs)
     total = 0
@@ -2356,6 +2458,7 @@ def inline_module(tree: ast.Module, vocab: Set[str], global_classes: Optional[Di
         total += done
         if not done:
             break
+    _dicts_built_by_stores(tree)
     # helpers of *other* modules that were looked through here: remembered on the definition (Index decides, once every module is
     # done, whether any call to them is left anywhere)
     if inl.inlined_into and (global_funcs or global_classes):
